@@ -130,6 +130,8 @@ pub(crate) fn value_needs_quoting(value: &str, language: &Language) -> bool {
     value.starts_with(['=', '+', '-'])
         || value.parse::<f64>().is_ok()
         || value.to_lowercase().parse::<bool>().is_ok()
+        || value.to_lowercase() == language.booleans.r#true.to_lowercase()
+        || value.to_lowercase() == language.booleans.r#false.to_lowercase()
         || get_error_by_name(&value.to_uppercase(), language).is_some()
 }
 
